@@ -176,6 +176,8 @@ def run(ctx):
     from sa.rules.C02 import number_syntax
     number_syntax(ctx, repo)
     add_instructions_rule(ctx, repo)
+    from sa.rules import C04pipe
+    C04pipe.run(ctx, repo)
     from sa.rules import memo
     memo.run_for(ctx, repo, 'C04')
     return report.finish(ctx, EXPLANATION)
